@@ -322,7 +322,7 @@ theorem seqComment_nf (m : Mode) {st : SeqSt} (h : StN st) (g t : Text) : StN (s
     simp only [Bool.and_eq_true, Bool.not_eq_true'] at hin
     have hnl : containsNL g = false := hin.1.2
     have hpn : st.prev ≠ .none := by
-      cases m <;> (intro e; rw [e] at hin; simp at hin)
+      cases m <;> (intro e; rw [e] at hin; simp [prevAllowsInline] at hin)
     have hpg : pushGap st g = st.before := by
       unfold pushGap; split
       · rfl
@@ -779,12 +779,6 @@ theorem summ_lead_spec : ∀ {ps : List FP} {f : Lex} {i : Bool} {t : Text}, sum
 
 /-! ### the exclusion, decidable -/
 
-def closedB (ts : List Trivia) : Bool :=
-  match ts.getLast? with
-  | none => true
-  | some (.comment _) => true
-  | some _ => false
-
 theorem closedT_of_closedB {ts : List Trivia} (h : closedB ts = true) : closedT ts := by
   unfold closedB at h
   cases hl : ts.getLast? with
@@ -797,28 +791,11 @@ theorem closedT_of_closedB {ts : List Trivia} (h : closedB ts = true) : closedT 
     | linebreak => cases h
     | comma => cases h
 
-def allFlatB : List Expr → Bool
-  | [] => true
-  | x :: r => x.before.isEmpty && closedB (x.effAfter false) && allFlatB r
-
 theorem allFlat_of_B : ∀ {es : List Expr}, allFlatB es = true → allFlat es
   | [], _ => trivial
   | x :: r, h => by
     simp only [allFlatB, Bool.and_eq_true, List.isEmpty_iff] at h
     exact ⟨h.1.1, closedT_of_closedB h.1.2, allFlat_of_B h.2⟩
-
-mutual
-/-- `Expr.inlineClean` as a Boolean: in every container written on one line, no item has leading
-    trivia and every item's trailing trivia is empty or ends with a comment -/
-def Expr.inlineCleanB : Expr → Bool
-  | .leaf .. => true
-  | .list v ml _ _ _ => (ml || allFlatB v) && allInlineCleanB v
-  | .set v ml _ _ _ _ => (ml || allFlatB v) && allInlineCleanB v
-  | .binding _ v _ _ _ => v.inlineCleanB
-def allInlineCleanB : List Expr → Bool
-  | [] => true
-  | e :: rest => e.inlineCleanB && allInlineCleanB rest
-end
 
 mutual
 theorem inlineClean_of_B : (e : Expr) → e.inlineCleanB = true → e.inlineClean
@@ -842,8 +819,6 @@ theorem allInlineClean_of_B : (es : List Expr) → allInlineCleanB es = true →
     simp only [allInlineCleanB, Bool.and_eq_true] at h
     exact ⟨inlineClean_of_B e h.1, allInlineClean_of_B rest h.2⟩
 end
-
-def Src.inlineCleanB (s : Src) : Bool := allInlineCleanB s.exprs
 
 theorem mem_allInlineClean : ∀ {es : List Expr}, allInlineClean es → ∀ e ∈ es, e.inlineClean
   | [], _, e, he => by cases he
